@@ -577,7 +577,9 @@ def fdepsd(
     LF = freq.size
     dT = 1 / sr
     pi = np.pi
-    Wn = 2 * pi * freq
+    # `Wn` is float64 for the serial loop too (the shared array used
+    # by the parallel workers always is):
+    Wn = 2 * pi * freq.astype(float)
     parallel, ncpu = srs._process_parallel(
         parallel, LF, sig.size, maxcpu, getresp=False
     )
